@@ -5,6 +5,7 @@ Sound first: only the dialect the README documents and the property quantifiers 
 Everything random is drawn by Hypothesis; rendering is deterministic, so shrinking and replay
 work on the abstract level and the resulting case is plain JSON."""
 import math
+import re
 
 from hypothesis import strategies as st
 
@@ -70,7 +71,7 @@ def region(draw, idx, exact=False):
 
 
 # ----------------------------------------------------------------------------- abstract ops
-TARGET_KINDS = ["grid", "in", "in", "edge_in", "edge_out", "same", "border", "zero"]
+TARGET_KINDS = ["grid", "in", "in", "edge_in", "edge_out", "same", "border", "zero", "micro_in", "micro_out"]
 
 
 @st.composite
@@ -81,8 +82,8 @@ def op_move(draw):
             draw(st.integers(0, 120)),    # grid i / position selector
             draw(st.integers(0, 120)),    # grid j / position selector
             draw(st.sampled_from([3, 3, 3, 1, 2, 0])),   # axes mask
-            draw(st.sampled_from([None, None, None, 0.2, 0.4, 0.6, 1.0, 5.0])),   # z
-            draw(st.sampled_from([0, 0, 1, 2, 4, 8, -1])),   # extrusion (multiples of 0.127 mm; -1: slic3r)
+            draw(st.sampled_from([None, None, None, None, 0.2, 0.4, 0.6, 1.0, 5.0, 0.0])),   # z
+            draw(st.sampled_from([0, 0, 0, 1, 2, 4, 8, -1, 99])),   # extrusion (multiples of 0.127 mm; -1: slic3r; 99: E word repeating the current value)
             draw(st.sampled_from([None, None, 600, 1200, 1800, 3000])),   # feed
             draw(st.sampled_from(["G1", "G1", "G0"])))
 
@@ -139,6 +140,9 @@ def op_misc(p):
         opts.append((1, st.tuples(st.just("reg"), st.sampled_from(["new", "here", "here"]), st.integers(0, 10 ** 6))))
         if p.get("reg_delete", True):
             opts.append((1, st.tuples(st.just("unreg"), st.integers(0, 7))))
+        if p.get("reg_replace", True):
+            opts.append((1, st.tuples(st.just("rereg"), st.integers(0, 7), st.sampled_from(["grow", "shrink", "shift", "shift", "retype"]),
+                                      st.integers(1, 3))))
     if p["rebase"] or p.get("rebase_w"):
         opts.append((1, st.tuples(st.just("rebase"), st.integers(0, 20), st.integers(0, 20), st.sampled_from([None, 0, 1]))))
     opts.append((1, st.tuples(st.just("feed"), st.sampled_from([600, 1200, 2400]))))
@@ -181,7 +185,8 @@ def one_op(p, inner=False):
     return _CACHE[key]
 
 
-CUT_PATTERNS = ["RIROP", "IRORP", "RIRRORP", "IRROP", "RIORP", "RIRORRP", "RIROIOP", "RIROIROP", "IRORIP", "RIRDP", "IRDRP", "RIRORP"]
+CUT_PATTERNS = ["RIROP", "IRORP", "RIRRORP", "IRROP", "RIORP", "RIRORRP", "RIROIOP", "RIROIROP", "IRORIP", "RIRDP", "IRDRP", "RIRORP",
+                "RIROSRRP", "RIRSORRP", "RISROP", "RIROIRSOP", "RIOIROP", "RIRTOP", "RTIROP"]
 
 
 def op_visit(p):
@@ -281,9 +286,9 @@ class Renderer(object):  # pylint: disable=too-many-instance-attributes
         margin = 0.0 if (self.exact and pr.trivial_frame()) else 1e-6
         return geom.classify(self.regions, pr.x, pr.y, margin)
 
-    def start(self, inch=False):
+    def start(self, inch=False, z0=False):
         self.g("G28")
-        self.g("G1 X1 Y1 Z0.2 F3000")
+        self.g("G1 X1 Y1 F3000" if z0 else "G1 X1 Y1 Z0.2 F3000")
         if inch:
             self.g("G20")
 
@@ -324,7 +329,7 @@ class Renderer(object):  # pylint: disable=too-many-instance-attributes
                 return (x1 + (x2 - x1) * ((i % 3) + 1) / 4.0, y1 + (y2 - y1) * ((j % 3) + 1) / 4.0)
             side = i % 4
             t = ((j % 3) + 1) / 4.0
-            off = {"edge_in": 0.05, "edge_out": -0.05, "border": 0.0}[kind]
+            off = {"edge_in": 0.05, "edge_out": -0.05, "border": 0.0, "micro_in": 0.0003, "micro_out": -0.0003}[kind]
             if kind == "border" and not self.border_ok():
                 off = 0.05
             if kind == "border" and j % 5 == 0:
@@ -347,6 +352,10 @@ class Renderer(object):  # pylint: disable=too-many-instance-attributes
             return (cx + (r, -r, 0, 0)[k], cy + (0, 0, r, -r)[k])
         a = (i % 8) * math.pi / 4
         rr = r - 0.05 if kind in ("edge_in", "border") else r + 0.05
+        if kind in ("micro_in", "micro_out"):
+            # a few tenths of a micron from the rim: survives 5-decimal rendering in mm, and the border band of the
+            # oracle (1e-6) keeps whichever side the rendered number lands on decidable
+            rr = r - 0.0003 if kind == "micro_in" else r + 0.0003
         if rr < 0:
             rr = 0.0
         return (cx + rr * math.cos(a), cy + rr * math.sin(a))
@@ -373,7 +382,11 @@ class Renderer(object):  # pylint: disable=too-many-instance-attributes
                 words = " F%s" % fmt((feed or 1200) / pr.u, 3)
                 self.g(g + words)
                 return
-            if ext > 0 and not self.retracted and self.e_ok():
+            if ext == 99:
+                # a travel move that repeats the unchanged E value (some slicers do): neither extrusion nor retraction
+                if words and pr.eabs:
+                    words += self.e_word(pr.e)
+            elif ext > 0 and not self.retracted and self.e_ok():
                 words += self.e_word(pr.e + ext * 0.127)
             elif ext < 0 and self.p["retract"] == "wild" and self.e_ok():
                 words += self.e_word(pr.e - 0.127 * 4)
@@ -394,6 +407,11 @@ class Renderer(object):  # pylint: disable=too-many-instance-attributes
                 elif tok == "D" and self.p["at"]:
                     self.op(("at", "off", "ExcludeRegion", False))
                     self.op(("at", "on", "ExcludeRegion", False))
+                elif tok == "S" and self.p["g92e"]:
+                    self.op(("sete", (0.0, 1.27, 5.08)[(i + n_) % 3]))
+                elif tok == "T":
+                    # a travel that repeats the unchanged E word
+                    self.op(("mv", "grid", rsel, (i * 5 + n_) % 121, (j * 3 + n_) % 121, 3, None, 99, None, "G1"))
                 elif tok == "P":
                     self.op(("mv", "grid", rsel, (i * 3 + n_) % 121, (j * 5 + n_) % 121, 3, None, 2, None, "G1"))
         elif k == "relarc":
@@ -403,9 +421,15 @@ class Renderer(object):  # pylint: disable=too-many-instance-attributes
             was_abs = self.pr.abs
             if was_abs:
                 self.g("G91")
+            mark = len(self.prog)
             self.arc(o[1])
+            text = self.prog[-1][1] if len(self.prog) > mark and self.prog[-1][0] == "g" else None
             if o[2] is not None:
                 self.op(o[2])
+                if text is not None and not self.pr.abs and o[1][2] % 2 == 0:
+                    # the identical arc words again, from another start point (under G91 the same shape, translated)
+                    # (without its E word: repeating an absolute E value would be an unmatched retraction)
+                    self.g(re.sub(r" E[-0-9.]+", "", text), precheck=True)
             if was_abs:
                 self.g("G90")
         elif k == "offon":
@@ -483,6 +507,8 @@ class Renderer(object):  # pylint: disable=too-many-instance-attributes
             if self.regions:
                 reg = self.regions.pop(o[1] % len(self.regions))
                 self.prog.append(["unreg", reg["id"]])
+        elif k == "rereg":
+            self.replace_region(o)
         elif k == "set_at":
             self.prog.append(["set_at", o[1]])
             self.atm = AtModel(o[1])
@@ -566,6 +592,38 @@ class Renderer(object):  # pylint: disable=too-many-instance-attributes
         self.nreg += 1
         self.regions.append(reg)
         self.prog.append(["reg", reg])
+
+    def replace_region(self, o):
+        """The user edits a region mid-print (API update): same id, new geometry (borders stay off the move grid)."""
+        _, rsel, how, n = o
+        if not self.regions:
+            return
+        k = rsel % len(self.regions)
+        old = self.regions[k]
+        new = dict(old)
+        d = {"grow": n, "shrink": -n, "shift": 0, "retype": 0}[how]
+        if old["type"] == "rect":
+            x1, y1, x2, y2 = geom.norm_rect(old)
+            if how == "retype":
+                new = {"type": "circ", "cx": (x1 + x2) / 2 + 0.1, "cy": (y1 + y2) / 2 + 0.05, "r": max(x2 - x1, y2 - y1) / 2 + 0.2, "id": old["id"]}
+            elif how == "shift":
+                new.update(x1=x1 + n, x2=x2 + n, y1=y1 - (n % 2), y2=y2 - (n % 2))
+            else:
+                if d < 0 and (x2 - x1 < 2 * n or y2 - y1 < 2 * n):
+                    d = 0
+                new.update(x1=x1 - d, y1=y1 - d, x2=x2 + d, y2=y2 + d)
+        else:
+            if how == "retype":
+                h = int(old["r"]) + 0.25
+                new = {"type": "rect", "x1": int(old["cx"]) - h, "y1": int(old["cy"]) - h, "x2": int(old["cx"]) + h, "y2": int(old["cy"]) + h, "id": old["id"]}
+            elif how == "shift":
+                new.update(cx=old["cx"] + n, cy=old["cy"] - (n % 2))
+            else:
+                new["r"] = old["r"] + d if old["r"] + d > 0 else old["r"]
+        if geom.signed_dist(new, 0.0, 0.0) < 3.0 or new == old:
+            return
+        self.regions[k] = new
+        self.prog.append(["rereg", new])
 
     def cycle(self):
         pr = self.pr
@@ -685,7 +743,8 @@ def cases(draw, p):
     abstract = draw(ops(p))
     rnd = Renderer(cfg, regions, p, delta, fw, exact)
     rnd.fw_spelling = draw(st.sampled_from([0, 0, 1, 2, 3]))
-    rnd.start(inch=bool(p["inch"] and not exact and draw(st.integers(0, 4)) == 0))
+    rnd.start(inch=bool(p["inch"] and not exact and draw(st.integers(0, 4)) == 0),
+              z0=bool(p.get("z0_start", True) and draw(st.integers(0, 5)) == 0))
     for o in abstract:
         rnd.op(o)
     via = draw(st.sampled_from(["direct", "direct", "plugin"])) if p.get("via_plugin", True) else "direct"
